@@ -98,7 +98,19 @@ func (env *SpecEnv) eval(e *SExpr) Val {
 	case SQuant:
 		return env.evalQuant(e)
 	case SSlice:
-		env.fail(e, "slice expression only allowed in modifies / as argument of seq helpers")
+		base := env.eval(e.Args[0])
+		if _, ok := base.Ty.Underlying().(*types.Slice); ok {
+			lo, hi := fc.idxLit(0), app("s-len", base.T)
+			if e.Args[1] != nil {
+				lo = fc.toIdx(env.eval(e.Args[1]))
+			}
+			if e.Args[2] != nil {
+				hi = fc.toIdx(env.eval(e.Args[2]))
+			}
+			fc.sliceSort()
+			return Val{T: app("mk-slice", app("s-arr", base.T), fc.addIdx(app("s-off", base.T), lo), fc.subIdx(hi, lo), fc.subIdx(app("s-cap", base.T), lo)), Ty: base.Ty}
+		}
+		env.fail(e, "slice expression on %s", base.Ty)
 	}
 	env.fail(e, "unsupported spec expression")
 	return Val{}
@@ -559,6 +571,11 @@ func (env *SpecEnv) evalCall(e *SExpr) Val {
 			env.fail(e, "conversion takes one argument")
 		}
 		a := arg(0)
+		if isString(t) {
+			if sl, ok := a.Ty.Underlying().(*types.Slice); ok && basicOf(sl.Elem()) != nil && basicOf(sl.Elem()).Kind() == types.Uint8 {
+				return fc.bytesToString(env.st(), a, t)
+			}
+		}
 		if _, fromIface := a.Ty.Underlying().(*types.Interface); fromIface {
 			if _, toIface := t.Underlying().(*types.Interface); !toIface {
 				return fc.unbox(a, t) // spec-level type assertion x.(T)
